@@ -144,7 +144,7 @@ fn check(rep: &Report, acc: &mut Acc, d: &Desc, rank: u64, total_consistent_with
             st[..pos].copy_from_slice(&[0x5A; 3]);
             let total = (pos + d.payload.len() + 2 + 3) as u16;
             rxs.mem.free.clear();
-            rxs.mem.frags[d.frag_id as usize % 2] = Some((CtxS { label: L3A, pt: 0x0800, frag_id: d.frag_id, total_len: total, pdu_len: pos as u16, from_reuse: false, exts: vec![] }, st));
+            rxs.mem.set_ctx(CtxS { label: L3A, pt: 0x0800, frag_id: d.frag_id, total_len: total, pdu_len: pos as u16, from_reuse: false, exts: vec![] }, st);
         }
     }
     let (out, after) = step_decap(&rxs, &DefaultCrc {}, &TableMgr::none(), &bytes);
@@ -169,7 +169,7 @@ fn check(rep: &Report, acc: &mut Acc, d: &Desc, rank: u64, total_consistent_with
                 match &out {
                     DecapOut::Fragmented { meta, consumed } => {
                         let wl = if d.lt == 3 { L3B } else { l };
-                        let ctx = after.mem.frags[d.frag_id as usize % 2].as_ref();
+                        let ctx = after.mem.ctx_in_class(d.frag_id);
                         let okc = ctx.map(|(c, b)| c.frag_id == d.frag_id && c.total_len == d.total_len && c.pdu_len as usize == d.payload.len() && c.pt == d.type_field && c.label == wl && b[..d.payload.len()] == d.payload[..]).unwrap_or(false);
                         if *consumed != bytes.len() || meta.pt != d.type_field || meta.label != wl || !okc {
                             bad = Some(format!("decap reads other field values: {} / context {:?}", out.brief(), ctx.map(|c| &c.0)));
@@ -183,7 +183,7 @@ fn check(rep: &Report, acc: &mut Acc, d: &Desc, rank: u64, total_consistent_with
             if !d.payload.is_empty() {
                 match &out {
                     DecapOut::Fragmented { consumed, .. } => {
-                        let ctx = after.mem.frags[d.frag_id as usize % 2].as_ref();
+                        let ctx = after.mem.ctx_in_class(d.frag_id);
                         let okc = ctx.map(|(c, b)| c.pdu_len as usize == pos + d.payload.len() && b[pos..pos + d.payload.len()] == d.payload[..]).unwrap_or(false);
                         if *consumed != bytes.len() || !okc {
                             bad = Some(format!("decap reads other field values: {}", out.brief()));
